@@ -169,6 +169,29 @@ def run(tier):
         if 'viol' in res:
             key, summ, text = res['viol']
             ck.violation(key, summ, {'input.c': text}, text=summ)
+    # replacement lists consumed by the parser and expanded again
+    for k, text in enumerate(gen_pp.REUSE):
+        rc, ref, err = gcc_cpp(text)
+        for t in common.TARGETS:
+            ck.evaluations += 1
+            if rc != 0:
+                ck.skip('ref-reject')
+                continue
+            a = common.cproc(exe, text=text, target=t)
+            b = common.cproc(exe, text=ref, target=t)
+            if b.status != 0:
+                ck.skip('expanded-program-rejected')
+                ck.extra.setdefault('reuse_units_rejected', []).append((k, b.err[:120].decode('latin-1')))
+                continue
+            ck.decided += 1
+            ck.distinct.add('reuse%d' % k)
+            if a.status != 0 or a.signal is not None:
+                ck.violation('reuse:reject', 'unit with macros rejected (%s) but its expansion compiles: %s' % (t, a.err[:200].decode('latin-1')), {'input.c': text})
+            elif a.out != b.out:
+                la, lb = a.out.split(b'\n'), b.out.split(b'\n')
+                j = next((i for i, (x, y) in enumerate(zip(la, lb)) if x != y), min(len(la), len(lb)))
+                ck.violation('reuse:il:%d' % k, 'IL of a unit that expands a macro again after the parser consumed it differs from the IL of its expanded text (%s) at line %d: %r vs %r'
+                             % (t, j, la[j][:90] if j < len(la) else '', lb[j][:90] if j < len(lb) else ''), {'input.c': text})
     # redefinition histories
     for a, b, ok in gen_pp.REDEF:
         text = a + '\n' + b + '\nint x;\n'
